@@ -279,7 +279,11 @@ ILL = [('unhashable_key_seq', '{[a]: b}'), ('unhashable_key_map', '{{a: b}: c}')
        ('merge_nested_bad', '- &m {<<: y}\n- {<<: *m}'), ('set_on_seq', '!!set [a, b]'), ('set_on_scalar', '!!set x'), ('omap_on_map', '!!omap {a: b}'),
        ('omap_on_scalar', '!!omap x'), ('omap_item_scalar', '!!omap [a]'), ('omap_item_seq', '!!omap [[a, b]]'), ('omap_item_two', '!!omap [{a: 1, b: 2}]'),
        ('omap_item_empty', '!!omap [{}]'), ('pairs_on_map', '!!pairs {a: b}'), ('pairs_item_scalar', '!!pairs [a]'), ('pairs_item_two', '!!pairs [{a: 1, b: 2}]'),
-       ('pairs_item_empty', '!!pairs [{}]'), ('unhashable_omap_key_is_fine_control', '!!pairs [{[a]: b}]')]
+       ('pairs_item_empty', '!!pairs [{}]'), ('unhashable_omap_key_is_fine_control', '!!pairs [{[a]: b}]'),
+       ('set_as_key', '? !!set {a}\n: v'), ('set_as_flow_key', '{!!set {a}: v}'), ('set_in_set', '!!set\n? !!set {a}\n'), ('set_alias_key', '- &s !!set {a, b}\n- {*s : v}'),
+       ('set_alias_member', '- &s !!set {a}\n- !!set {*s : null}'), ('omap_as_key', '? !!omap [a: 1]\n: v'), ('pairs_as_key', '? !!pairs [a: 1]\n: v'),
+       ('empty_seq_key', '{[]: v}'), ('empty_map_key', '{{}: v}'), ('set_key_with_merge', '- &m {x: 1}\n- {<<: *m, !!set {a}: v}'), ('nested_unhashable_deep', '{a: {b: {[c]: d}}}'),
+       ('omap_item_empty_tagged', '!!omap [!!map {}]'), ('omap_item_null', '!!omap [~]'), ('pairs_item_null', '!!pairs [~]'), ('merge_list_empty_ok_control', '{<<: [], a: 1}')]
 
 
 def check_text(text, ctx, case, expected=None, model=None, want_error=False):
